@@ -222,8 +222,10 @@ class _Gen:
         T, F = self.tname(t), self.fn(t)
         if self.cpp:
             return [
-                f"static void* create_{F}(int prior) {{ (void) prior; return new {T}(); }}",
-                f"static void destroy_{F}(void* o) {{ delete static_cast<{T}*>(o); }}",
+                # prior 0: value-initialised; 1 / 2: DEFAULT-initialised (`T obj;`) in storage that holds 0xAA / 0x55 garbage, as in a
+                # reused slot: only what the generated constructors set is defined (the histories never read before a decode)
+                f"static void* create_{F}(int prior) {{ void* m = ::operator new(sizeof({T})); if (prior == 0) {{ return new (m) {T}(); }} memset(m, prior == 1 ? 0xAA : 0x55, sizeof({T})); return new (m) {T}; }}",
+                f"static void destroy_{F}(void* o) {{ glue_destroy_<{T}>(o); }}",
                 f"static void vbuild_{F}(void* o, Tok* t) {{ build_{F}(*static_cast<{T}*>(o), t); }}",
                 f"static void vdump_{F}(const void* o, Out* out) {{ dump_{F}(*static_cast<const {T}*>(o), out); }}",
                 f"static int ser_{F}(const void* o, uint8_t* b, size_t* s) {{ auto r = serialize(*static_cast<const {T}*>(o), nunavut::support::bitspan{{b, *s}}); if (r) {{ *s = r.value(); return 0; }} return -static_cast<int>(r.error()); }}",
@@ -282,8 +284,10 @@ def generate(types: typing.Sequence[pydsdl.CompositeType], cpp: bool) -> str:
     for t in allt:
         L.append(f'#include "{include_path(t, ".hpp" if cpp else ".h")}"')
     if cpp:
-        L.append("#include <type_traits>\n#include <utility>")
+        L.append("#include <type_traits>\n#include <utility>\n#include <new>\n#include <cstring>")
     L.append('#include "codec_core.h"')
+    if cpp:
+        L.append("template <typename T> static void glue_destroy_(void* o) { static_cast<T*>(o)->~T(); ::operator delete(o); }")
     for t in allt:
         L += g.composite(t)
     for t in types:
